@@ -5,7 +5,7 @@ cd "$(dirname "$0")"
 export GOFLAGS=-mod=mod GOPROXY=off GOSUMDB=off GOTOOLCHAIN=local
 mkdir -p .build/bin
 python3 -c "import importlib.machinery,importlib.util,sys; l=importlib.machinery.SourceFileLoader('chk','check'); m=importlib.util.module_from_spec(importlib.util.spec_from_loader('chk',l)); l.exec_module(m); print(m.gen_consts()); m.coq_makefile()"
-( cd coq && timeout 3000 make -j16 >/dev/null )
+( cd coq && timeout 3000 make -k -j16 >/dev/null 2>&1 ) || echo "setup: some Coq files did not build (the checks rebuild what they need and report it)"
 python3 - <<'PY'
 import subprocess, sys, os, shutil
 sys.path.insert(0, os.getcwd())
@@ -21,6 +21,6 @@ for pid, c in PROPS.items():
         shutil.copyfile({"root": "/repo/go.sum", "cmdmod": "/repo/cmd/go.sum"}[key[0]], os.path.join(mod, "go.sum"))
         r = subprocess.run(["go1.26", "build", "-tags", "verif", "-o", os.path.abspath(".build/bin/" + key[1]), "./cmd/" + key[1]], cwd=mod)
         if r.returncode != 0:
-            sys.exit(1)
+            print("setup: harness %s did not build (its check will report it)" % key[1])
 PY
 echo setup ok
